@@ -7,6 +7,7 @@
   that still owe a receive-or-remove to the Send in progress), proved for every reachable state.
 -/
 import BB.Proofs.PubSub3
+import BB.Proofs.PubSubLive
 
 namespace BB.Props.C07
 open BB.LTS BB.PubSub BB.Caster BB.Fun
@@ -219,5 +220,127 @@ theorem no_deadlock (s : St) (hr : Reach sys s) (hbound : s.subsCount < MAXR)
       | done => exact absurd hp n2
       | wantSendMu => exact ⟨.sendMu a, by simp [sys, step, hp, hmuf], rfl⟩
       | _ => have := noM a; rw [hp] at this; simp [inM] at this
+
+/-! ### Liveness: a Send that has acquired sendingMu returns -/
+
+theorem last_before_change (p : Nat → Prop) (i j : Nat) (hij : i ≤ j) (hi : p i) (hj : ¬ p j) : ∃ k, i ≤ k ∧ k < j ∧ p k ∧ ¬ p (k + 1) := by
+  induction j with
+  | zero => have : i = 0 := by omega
+            subst this; exact absurd hi hj
+  | succ j ih =>
+    by_cases hpj : p j
+    · by_cases e : i ≤ j
+      · exact ⟨j, e, by omega, hpj, hj⟩
+      · have : i = j + 1 := by omega
+        subst this; exact absurd hi hj
+    · by_cases e : i ≤ j
+      · obtain ⟨k, h1, h2, h3, h4⟩ := ih e hpj
+        exact ⟨k, h1, by omega, h3, h4⟩
+      · have : i = j + 1 := by omega
+        subst this; exact absurd hi hj
+
+/-- SEND TERMINATES.  Along every run that is weakly fair for the class `sendProgress a` — the Send's own steps, the
+    rendezvous in which a subscriber receives or absorbs, Wait's consumption of a pong and the non-spin steps of the
+    unsubscribe path (subscribers follow the contract: they receive-then-Wait or unsubscribe; the spin steps of a failed
+    TryRLock are NOT assumed to be anything but harmless) — a Send that holds sendingMu (or is past it) at step `i` returns.
+    The rank is in `BB/Proofs/PubSubLive.lean`; dynamic membership is covered: subscribers may subscribe, unsubscribe in the
+    middle of the Send, absorb their copy, fail the CAS of the sender any number of times (each failure is paid for by the
+    unsubscription that caused it). -/
+theorem send_past_the_lock_returns (a : Nat) (r : Run sys) (hfair : WeakFair sys (fun _ act => sendProgress a act) r)
+    (i : Nat) (hi : inH ((r.st i).senders a).pc = true) :
+    ∃ k, i ≤ k ∧ inH ((r.st k).senders a).pc = true ∧ ((r.st (k + 1)).senders a).pc = .done := by
+  obtain ⟨j, hij, hj⟩ := send_leadsTo_out a r hfair i
+  obtain ⟨k, h1, _, h3, h4⟩ := last_before_change (fun n => inH ((r.st n).senders a).pc = true) i j hij hi (by simp [hj])
+  have hn := r.next k
+  cases hact : r.act k with
+  | none => simp only [hact] at hn; rw [hn] at h4; exact absurd h3 h4
+  | some act =>
+    simp only [hact] at hn
+    have hout : inH ((r.st (k + 1)).senders a).pc = false := by cases e : inH ((r.st (k + 1)).senders a).pc <;> simp_all
+    exact ⟨k, h1, h3, send_exit_is_done a h3 hn hout⟩
+
+/-! a weakly fair run to which the theorem applies: two subscribers, one Send; one subscriber receives and acknowledges, the
+    other fails its TryRLock, sees the ping, unsubscribes in the middle of the Send and absorbs its copy; then stuttering -/
+def demoActs : Nat → Option Act
+  | 0 => some (.subLock 0) | 1 => some (.subInc 0) | 2 => some (.subUnlock 0) | 3 => some (.subLock 1) | 4 => some (.subInc 1)
+  | 5 => some (.subUnlock 1) | 6 => some (.sbegin 0 7) | 7 => some (.sendMu 0) | 8 => some (.sending 0) | 9 => some (.count 0)
+  | 10 => some (.pingAdd 0) | 11 => some (.cfast 0) | 12 => some (.cload 0) | 13 => some (.ccas 0) | 14 => some (.tryFail 1)
+  | 15 => some (.pingNonZero 1) | 16 => some (.unsubDecN 1) | 17 => some (.pingSub 1) | 18 => some (.recv 0 0)
+  | 19 => some (.absorb 0 1) | 20 => some (.cfinal 0) | 21 => some (.unsending 0) | 22 => some (.pong 0) | 23 => some (.consume 0)
+  | 24 => some (.ponged 0) | 25 => some (.sdone 0)
+  | _ => none
+
+def demoSt : Nat → St
+  | 0 => sys.init
+  | n + 1 => match demoActs n with
+    | some act => (sys.step (demoSt n) act).getD (demoSt n)
+    | none => demoSt n
+
+theorem demoSt_final (k : Nat) : demoSt (k + 26) = demoSt 26 := by
+  induction k with
+  | zero => rfl
+  | succ k ih => show demoSt (k + 26) = demoSt 26; exact ih
+
+set_option maxRecDepth 20000 in
+unseal subOne in
+def demoRun : Run sys where
+  st := demoSt
+  act := demoActs
+  start := rfl
+  next := by
+    intro i
+    match i with
+    | 0 => rfl | 1 => rfl | 2 => rfl | 3 => rfl | 4 => rfl | 5 => rfl | 6 => rfl | 7 => rfl | 8 => rfl | 9 => rfl
+    | 10 => rfl | 11 => rfl | 12 => rfl | 13 => rfl | 14 => rfl | 15 => rfl | 16 => rfl | 17 => rfl | 18 => rfl | 19 => rfl
+    | 20 => rfl | 21 => rfl | 22 => rfl | 23 => rfl | 24 => rfl | 25 => rfl
+    | k + 26 => rfl
+
+set_option maxRecDepth 20000 in
+unseal subOne in
+theorem demoRun_fair : WeakFair sys (fun _ act => sendProgress 0 act) demoRun := by
+  intro i hen
+  by_cases hi : i ≤ 25
+  · exact ⟨25, hi, _, rfl, rfl⟩
+  · exfalso
+    obtain ⟨act, hH, he⟩ := hen i (Nat.le_refl _)
+    have hst : demoRun.st i = demoSt 26 := by
+      have := demoSt_final (i - 26); rwa [show i - 26 + 26 = i by omega] at this
+    rw [hst] at he
+    have hpc : ((demoSt 26).senders 0).pc = .done := by rfl
+    have hn : (demoSt 26).nSubs = 2 := by rfl
+    have h0 : ((demoSt 26).subs 0).pc = .idle := by rfl
+    have h1 : ((demoSt 26).subs 1).pc = .out := by rfl
+    have hfresh := (pinv12_reach _ (run_reach _ demoRun 26)).1.fresh
+    have hsub : ∀ t, ((demoSt 26).subs t).pc = .idle ∨ ((demoSt 26).subs t).pc = .out := by
+      intro t
+      match t with
+      | 0 => exact Or.inl h0
+      | 1 => exact Or.inr h1
+      | t + 2 =>
+        right
+        have hz : (demoSt 26).subs (t + 2) = {} := hfresh (t + 2) (by show (demoSt 26).nSubs ≤ t + 2; rw [hn]; omega)
+        rw [hz]
+    cases act <;> simp only [sendProgress] at hH
+    case count b => subst hH; simp [enabled, sys, step, hpc] at he
+    case pingAdd b => subst hH; simp [enabled, sys, step, hpc] at he
+    case cfast b => subst hH; simp [enabled, sys, step, hpc] at he
+    case cload b => subst hH; simp [enabled, sys, step, hpc] at he
+    case ccas b => subst hH; simp [enabled, sys, step, hpc] at he
+    case cfinal b => subst hH; simp [enabled, sys, step, hpc] at he
+    case unsending b => subst hH; simp [enabled, sys, step, hpc] at he
+    case pong b => subst hH; simp [enabled, sys, step, hpc] at he
+    case ponged b => subst hH; simp [enabled, sys, step, hpc] at he
+    case sdone b => subst hH; simp [enabled, sys, step, hpc] at he
+    case recv b t => subst hH; simp [enabled, sys, step, hpc] at he
+    case absorb b t => subst hH; simp [enabled, sys, step, hpc] at he
+    case consume t => rcases hsub t with e | e <;> simp [enabled, sys, step, e] at he
+    case pingNonZero t => rcases hsub t with e | e <;> simp [enabled, sys, step, e] at he
+    case unsubDecN t => rcases hsub t with e | e <;> simp [enabled, sys, step, e] at he
+    case pingSub t => rcases hsub t with e | e <;> simp [enabled, sys, step, e] at he
+
+set_option maxRecDepth 20000 in
+unseal subOne in
+example : ∃ k, 9 ≤ k ∧ inH ((demoRun.st k).senders 0).pc = true ∧ ((demoRun.st (k + 1)).senders 0).pc = .done :=
+  send_past_the_lock_returns 0 demoRun demoRun_fair 9 (by rfl)
 
 end BB.Props.C07
